@@ -40,6 +40,9 @@ Definition probe_wiring_ok : bool :=
   (* one Scanner is shared by all workers of the engine: Scan (and elasticClient.Get) neither write to
      their receiver nor hand out pointers into it; the moby client is created inside Scan (docker_client_opts) *)
   strs_eqb elastic_scan_shared_state [] && strs_eqb elastic_get_shared_state [] && strs_eqb docker_scan_shared_state [] &&
+  (* the configured timeout is the ONLY time limit of a probe: the http.Client / http.Transport (/ net.Dialer ...)
+     literals of both NewScanner functions set no Timeout / ...Timeout / ...Deadline field of their own *)
+  strs_eqb elastic_new_literal_timeouts [] && strs_eqb docker_new_literal_timeouts [] &&
   (* CLI: --proto (http or https only, default http) and --timeout go to the scanner *)
   strs_eqb elastic_cli_scanner_args ["opts.proto"; "elastic.WithDataTimeout(opts.timeout)"]%string &&
   strs_eqb docker_cli_scanner_args ["opts.proto"; "docker.WithDataTimeout(opts.timeout)"]%string &&
